@@ -10,6 +10,9 @@ SM2 = MOD + '/sm2'
 SM3 = MOD + '/sm3'
 
 
+LABEL_PREFIX = ['']
+
+
 def main():
     ck = Check('C17', level='other')
     L = load_listing()
@@ -23,6 +26,7 @@ def main():
         """after an operation: which pre-existing objects were written?"""
         nonlocal nops
         nops += 1
+        label = LABEL_PREFIX[0] + label
         log = set(e.store_log)
         e.store_log.clear()
         init_limit = e.global_snapshot[2]
@@ -37,9 +41,20 @@ def main():
                 findings.append((label, 'input:' + inputs[obj], 'writes to its %s argument' % inputs[obj]))
 
     # ------------------------------------------------------------ SM4 block ciphers and the AEAD (Go glue + assembly)
-    for cando in (True, False):
-        eng = new_engine(prog, cando_asm=cando)
-        asmbridge.install(eng, L)
+    import arm64lib, arm64sym
+    try:
+        a64 = arm64lib.Env('c17')
+        arm64lib.note(ck)
+    except RuntimeError as ex:
+        a64 = None
+        ck.record('arm64', 'inconclusive', 'arm64 part not completed: %s' % str(ex)[:200])
+    for arch, cando in (('amd64', True), ('amd64', False)) + ((('arm64', True),) if a64 is not None else ()):
+        if arch == 'arm64':
+            eng = a64.engine()
+        else:
+            eng = new_engine(prog, cando_asm=cando)
+            asmbridge.install(eng, L)
+        LABEL_PREFIX[0] = 'arm64 ' if arch == 'arm64' else ''
         eng.asm_branch_oracle = lambda e, fn, pc, cond: False
 
         def run(e, cando=cando):
